@@ -91,7 +91,7 @@ func runBounded(sp *BoundedSpec) boundedResult {
 		return res
 	}
 	defer os.RemoveAll(dir)
-	target := filepath.Join("/repo", sp.Pkg, "zz_govc_bounded_"+sanitize(sp.Name)+"_test.go")
+	target := filepath.Join(repoRoot, sp.Pkg, "zz_govc_bounded_"+sanitize(sp.Name)+"_test.go")
 	ov, _ := json.Marshal(map[string]map[string]string{"Replace": {target: sp.File}})
 	ovFile := filepath.Join(dir, "overlay.json")
 	if err := os.WriteFile(ovFile, ov, 0o644); err != nil {
@@ -101,7 +101,7 @@ func runBounded(sp *BoundedSpec) boundedResult {
 	ctx, cancel := context.WithTimeout(context.Background(), 10*time.Minute)
 	defer cancel()
 	cmd := exec.CommandContext(ctx, "go", "test", "-overlay", ovFile, "-vet=off", "-count=1", "-timeout", "540s", "-run", "^"+sp.Run+"$", ".")
-	cmd.Dir = filepath.Join("/repo", sp.Pkg)
+	cmd.Dir = filepath.Join(repoRoot, sp.Pkg)
 	cmd.Env = append(os.Environ(), "GOFLAGS=-mod=mod", "GOPROXY=off", "GOSUMDB=off", "GOTOOLCHAIN=local")
 	var out bytes.Buffer
 	cmd.Stdout = &out
